@@ -8,6 +8,7 @@ CONSTANTS
   Lens = {0,1,2,3,4,5,6,7,8,9,10}
   Cmds = {1}
   MaxMsgs = 1
+  Cuts = {0}
   MaxPkts = 4
   Export = FALSE
 SPECIFICATION Spec
